@@ -43,7 +43,7 @@ fn geometry_list(ctx: &Ctx, rng: &mut Rng) -> Vec<Geom> {
     let spcs = [1u32, 2, 4, 8, 16, 32, 64, 128];
     for &spc in &spcs {
         for fat32 in [false, true] {
-            for nfats in [1u32, 2] {
+            for nfats in [1u32, 2, 3, 4] {
                 let per = if fat32 { 128 } else { 256 };
                 let lo = if fat32 { 65525 } else { 4085 };
                 let clusters = lo + rng.below(2 * per as u64) as u32;
